@@ -31,6 +31,21 @@ Definition sub_mod (x y m : Z) : M Z :=
 (* [junk] is whatever the fresh memory happens to contain *)
 Definition new_buf (n : Z) (junk : store) : cbuf := mkB n 0 0 junk.
 
+(* boxed (lib.rs:340), the same text with and without the `unstable` feature:
+     let mut uninit: Box<MaybeUninit<Self>> = Box::new_uninit();
+     addr_of_mut!(ptr->size).write(0);     [written ( *ptr).size in Rust]
+     addr_of_mut!(ptr->start).write(0);
+     uninit.assume_init()
+   One heap allocation (Self is never zero-sized: it has the two usize
+   fields), then the two bookkeeping fields are written; the items stay
+   whatever the fresh memory holds. *)
+Definition boxed (n : Z) (junk : store) : M cbuf :=
+  emit EvAlloc;;
+  let uninit := new_buf n junk in
+  let b := b_size uninit 0 in
+  let b := b_start b 0 in
+  ret b.
+
 (* ---- len / capacity / is_empty / is_full ---------------------------- *)
 
 Definition len : M Z := get_size.
